@@ -1,5 +1,8 @@
 import Gv.Oracle.Cli
 import Gv.Model.Fmt.Phylip
+import Gv.Model.Fmt.Stockholm
+import Gv.Model.Fmt.Paml
+import Gv.Model.Identical
 import Gv.Gen.FmtFacts
 /-!
 Command-line glue of two commands of property C11 whose bytes are a function of the input only:
@@ -13,19 +16,20 @@ Command-line glue of two commands of property C11 whose bytes are a function of 
   the alignments before it are written, the driver does not compare them).  A negative `n` is not decided here.
 * `goalign identical -c <file>` (cmd/identical.go): `true` / `false`, `Identical` of the first alignment of the
   input and the first alignment of the file: as many rows, and every row of the input has a row of the same name
-  and the same (case-sensitive) sequence in the file; the order of the rows does not matter.
+  and the same (case-sensitive) sequence in the file; the order of the rows does not matter
+  (`Model/Identical.lean` `identicalRows`; what it decides: `Props/C01` `identical_iff_same_records`, `identicalRows_spec`).
 
 * `goalign stats nalign -p`: the number of alignments of a Phylip input.
+
+* `goalign reformat paml`: the bytes of the PAML writer model for the FASTA alignment read.
+
+* `detchainsto`: the Stockholm file a Stockholm chain starts from is the one the writer model predicts.
 
 Needs the format facts: only the C11 oracle and the complete one link it.
 -/
 namespace Gv.Oracle.CliDivideOps
 open Gv Gv.Oracle Gv.Model Gv.Oracle.DetOps Gv.Oracle.CliOps
 open Gv.Oracle.CliDefaults (effective)
-
-/-- `seqbag.Identical(comp)` -/
-def identicalRows (a comp : Rows) : Bool :=
-  a.length == comp.length && a.all fun r => match findRow r.1 comp with | some s => s == r.2 | none => false
 
 /-- an alignment as the FASTA reader accepts it: at least one row, one length, names all different -/
 def wellFormed (rows : Rows) : Bool :=
@@ -113,8 +117,43 @@ def expectedNalignPhylip (stdin : String) : Option String :=
   | .done als ok => if als.isEmpty then none else some (if ok then "rc=0 out=" ++ toString als.length ++ "|" else "rc=1 out=")
   | _ => none
 
+/-- the Stockholm file goalign writes for these rows (`Model/Fmt/Stockholm.lean` `write`, the writer of
+`C02.roundtrip_stockholm` and of the chain theorems of C11), newline as `|`, tab as `~` -/
+def stockholmText (rows : Rows) : String :=
+  ((stringOfBytes (Fmt.Stockholm.write (rows.map fun r => (bytesOfString r.1, r.2)))).replace "\n" "|").replace "\t" "~"
+
+/-- `detchainsto`: the driver answers `same … sto=<the Stockholm file the chain started from>` when every chain it ran
+agreed; the file must also be the one the writer model predicts for the rows of the FASTA input -/
+def chainStoVerdict (stdin impl : String) : Ans :=
+  if !impl.startsWith "same" then ⟨"same", "fail:stockholm-chain-changes-bytes"⟩ else
+  let rows := parseFasta (stdin.splitOn "|")
+  match impl.splitOn " sto=" with
+  | [_, sto] =>
+    -- the input is read back faithfully (one line per sequence, as the generator writes it), plain ASCII
+    if String.join (rows.map fun x => ">" ++ x.1 ++ "|" ++ stringOfBytes x.2 ++ "|") != stdin ||
+       rows.any (fun r => r.2.any (· ≥ 128)) then ⟨"same", "pass"⟩ else
+    ⟨"same", verdictOf (sto == stockholmText rows) "stockholm-file-differs-from-the-writer-model"⟩
+  | _ => ⟨"same", "pass"⟩
+
+/-- `goalign reformat paml` (cmd/paml.go) on a FASTA input: the bytes of the PAML writer model (`Model/Fmt/Paml.lean`) for
+the alignment read; an input the FASTA reader refuses (no row, rows of different lengths) gives a failing status.
+`none` = not decided here (names repeated, non-ASCII, a FASTA text that is not one line per sequence) -/
+def expectedReformatPaml (stdin : String) : Option String :=
+  let rows := parseFasta (stdin.splitOn "|")
+  if String.join (rows.map fun x => ">" ++ x.1 ++ "|" ++ stringOfBytes x.2 ++ "|") != stdin then none else
+  if rows.any (fun r => r.2.any (· ≥ 128) || r.2.isEmpty || r.1.isEmpty || r.1.any (fun c => c.toNat ≥ 128 || c == ' ' || c == '~')) then none else
+  if (rows.map Prod.fst).eraseDups.length != rows.length then none else
+  if !wellFormed rows then some "rc=1 out=" else
+  let out := Fmt.Paml.write (rows.map fun r => (bytesOfString r.1, r.2))
+  some ("rc=0 out=" ++ ((stringOfBytes out).replace "\n" "|").replace "\t" "~")
+
 def handle : Handler := fun op args impl =>
   match op, args with
+  | "cli_lib", [stdin, "reformat", "paml"] =>
+    match expectedReformatPaml stdin with
+    | some m => some ⟨m, verdictOf (impl == m) "command-line-differs-from-library-model"⟩
+    | none => some ⟨"unmodelled", "na"⟩
+  | "detchainsto", stdin :: _ => some (chainStoVerdict stdin impl)
   | "cli_lib", [stdin, "stats", "nalign", p] =>
     if p != "-p" && p != "--phylip" then none else
     match expectedNalignPhylip stdin with
